@@ -643,6 +643,10 @@ func c19Witness() c19Part {
 		{two, false, []string{"read_term", "get_char", "read_term", "peek_char", "get_char", "read_term", "eos", "get_char"}},
 		{two, false, []string{"peek_char", "read_term", "position", "read", "position", "read", "read"}},
 		{bin, true, []string{"peek_byte", "get_byte", "get_byte", "position", "get_byte", "peek_byte", "get_byte", "eos", "get_byte"}},
+		// refused operations of the other stream type between reads: the cursor must stay where it is
+		{abc, false, []string{"get_char", "peek_byte", "get_char", "position", "get_byte", "get_char", "peek_byte", "get_char", "position"}},
+		{two, false, []string{"read_term", "peek_byte", "get_char", "peek_byte", "read_term", "position"}},
+		{bin, true, []string{"get_byte", "peek_char", "get_byte", "position", "get_char", "get_byte", "peek_char", "position"}},
 	}
 	sts := []c19Stream{
 		{Host: true, Reader: "bytes", EOF: "reset", Access: "s2"},
@@ -813,12 +817,14 @@ func (c *c19) randomPart(cx *Ctx, n int) c19Part {
 		if st.Reader == "erroring" {
 			st.Reader = fmt.Sprintf("erroring:%d", r.Intn(len(st.Src.B)+1))
 		}
-		names := []string{"get_char", "peek_char", "read_term", "read", "at_end", "position", "eos", "get_code", "peek_code", "get_byte"}
-		weights := []int{20, 16, 18, 6, 8, 10, 10, 6, 6, 1}
+		// wrong-type operations (byte operations on a text stream and vice versa) are refused, but a refused
+		// PEEK must not move the cursor either: both get_* and peek_* of the other type are mixed in
+		names := []string{"get_char", "peek_char", "read_term", "read", "at_end", "position", "eos", "get_code", "peek_code", "get_byte", "peek_byte"}
+		weights := []int{20, 16, 18, 6, 8, 10, 10, 6, 6, 2, 4}
 		drain := []string{"get_char", "read_term", "get_code", "peek_char"}
 		if st.Binary {
-			names = []string{"get_byte", "peek_byte", "at_end", "position", "eos", "get_char", "read_term"}
-			weights = []int{30, 22, 10, 14, 12, 1, 1}
+			names = []string{"get_byte", "peek_byte", "at_end", "position", "eos", "get_char", "read_term", "peek_char"}
+			weights = []int{30, 22, 10, 14, 12, 2, 1, 4}
 			drain = []string{"get_byte", "peek_byte"}
 		}
 		var ops []string
